@@ -31,10 +31,20 @@ def log(*a):
     print(*a, flush=True)
 
 
+def _raise_stack_limit():
+    # coqc parses the generated case lists recursively: large literals overflow the default 8 MB stack
+    import resource
+    try:
+        soft, hard = resource.getrlimit(resource.RLIMIT_STACK)
+        resource.setrlimit(resource.RLIMIT_STACK, (hard, hard))
+    except (ValueError, OSError):
+        pass
+
+
 def sh(cmd, timeout=None, cwd=None, env=None):
     try:
         p = subprocess.run(cmd, shell=isinstance(cmd, str), cwd=cwd, env=env, timeout=timeout,
-                           stdout=subprocess.PIPE, stderr=subprocess.PIPE, text=True)
+                           stdout=subprocess.PIPE, stderr=subprocess.PIPE, text=True, preexec_fn=_raise_stack_limit)
         return p.returncode, p.stdout, p.stderr
     except subprocess.TimeoutExpired as e:
         out = e.stdout.decode() if isinstance(e.stdout, bytes) else (e.stdout or '')
